@@ -15,7 +15,11 @@ use std::sync::atomic::{AtomicBool, AtomicU64, Ordering};
 use std::sync::Mutex;
 use std::time::Instant;
 
-pub const VERIF_ROOT: &str = "/verif";
+/// Root of the verification tree (evidence/, replays/, regress/, known_findings.json): $VERIF_ROOT
+/// as exported by check.sh (the directory it lives in), default /verif.
+pub fn verif_root() -> String {
+    std::env::var("VERIF_ROOT").unwrap_or_else(|_| "/verif".to_string())
+}
 
 #[derive(Clone, Copy, PartialEq, Eq, Debug)]
 pub enum Tier {
@@ -195,7 +199,7 @@ pub struct KnownFinding {
 }
 
 pub fn load_known_findings() -> Vec<KnownFinding> {
-    let path = format!("{VERIF_ROOT}/known_findings.json");
+    let path = format!("{}/known_findings.json", verif_root());
     let Ok(text) = std::fs::read_to_string(&path) else {
         return vec![];
     };
@@ -314,7 +318,7 @@ fn write_replay_file(
     observed: &Value,
     shrunk: bool,
 ) -> String {
-    let dir = format!("{VERIF_ROOT}/replays");
+    let dir = format!("{}/replays", verif_root());
     let _ = std::fs::create_dir_all(&dir);
     let body = json!({
         "property": prop,
@@ -336,7 +340,7 @@ fn write_replay_file(
 
 /// Saved explicit cases under /verif/regress/<ID>-<part>-*.json (committed; replay-file format).
 pub fn load_regress(id: &str, part: &str) -> Vec<(String, Value)> {
-    let dir = format!("{VERIF_ROOT}/regress");
+    let dir = format!("{}/regress", verif_root());
     let mut out = vec![];
     let Ok(rd) = std::fs::read_dir(&dir) else { return out };
     let mut names: Vec<String> = rd.filter_map(|e| e.ok()).map(|e| e.file_name().to_string_lossy().to_string()).collect();
@@ -894,7 +898,7 @@ impl Run {
                 "wall_s": (wall * 1000.0).round() / 1000.0,
                 "violations": self.violations.len(),
             });
-            let dir = format!("{VERIF_ROOT}/evidence");
+            let dir = format!("{}/evidence", verif_root());
             let _ = std::fs::create_dir_all(&dir);
             let path = std::env::var("VERIF_EVIDENCE_OUT").unwrap_or_else(|_| format!("{dir}/{}.json", self.id));
             if let Err(e) = std::fs::write(&path, serde_json::to_string_pretty(&ev).unwrap()) {
@@ -967,8 +971,8 @@ pub fn run_sub_process(run: &mut Run, bin: &str, parts: &[&str]) {
     if run.replay.is_some() {
         return;
     }
-    let out = format!("{VERIF_ROOT}/target/sub-{}-{}.json", run.id, std::process::id());
-    let _ = std::fs::create_dir_all(format!("{VERIF_ROOT}/target"));
+    let out = format!("{}/target/sub-{}-{}.json", verif_root(), run.id, std::process::id());
+    let _ = std::fs::create_dir_all(format!("{}/target", verif_root()));
     let status = std::process::Command::new(bin)
         .args([run.id, "--tier", run.tier.name(), "--parts", &parts.join(",")])
         .env("VERIF_SUB_OUT", &out)
@@ -1002,9 +1006,9 @@ pub fn run_sub_process(run: &mut Run, bin: &str, parts: &[&str]) {
 /// target (nightly), runs `jobs` libFuzzer processes on fresh corpus directories seeded with `seeds`,
 /// and returns (total executions, corpus files, crashing inputs). None if the tooling is unavailable.
 pub fn run_fuzz(target: &str, seed: u64, runs_per_job: u64, jobs: usize, max_len: usize, seeds: &[Vec<u8>]) -> Result<(u64, usize, Vec<Vec<u8>>), String> {
-    let tgt = std::env::var("VERIF_TARGET").unwrap_or_else(|_| format!("{VERIF_ROOT}/target"));
-    let fuzz_dir = format!("{VERIF_ROOT}/fuzz");
-    let _ = std::fs::copy(format!("{VERIF_ROOT}/harness/Cargo.lock"), format!("{fuzz_dir}/Cargo.lock"));
+    let tgt = std::env::var("VERIF_TARGET").unwrap_or_else(|_| format!("{}/target", verif_root()));
+    let fuzz_dir = format!("{}/fuzz", verif_root());
+    let _ = std::fs::copy(format!("{}/harness/Cargo.lock", verif_root()), format!("{fuzz_dir}/Cargo.lock"));
     let build = std::process::Command::new("cargo")
         .args(["+nightly", "fuzz", "build", "--fuzz-dir", &fuzz_dir, "--target-dir", &format!("{tgt}/fuzz"), target])
         .env("CARGO_NET_OFFLINE", "true")
